@@ -214,12 +214,24 @@ impl Mul<Arc> for Affine {
         let ellipse = self * Ellipse::new(arc.center, arc.radii, arc.x_rotation);
         let center = ellipse.center();
         let (radii, rotation) = ellipse.radii_and_rotation();
+        // The decomposition recovers the axes only up to a quarter turn and forgets reflections,
+        // so the start angle is re-derived from the image of the start point, expressed in the
+        // frame of the new axes, and the sweep is reversed if the map reverses orientation.
+        let start =
+            self * (arc.center + sample_ellipse(arc.radii, arc.x_rotation, arc.start_angle));
+        let local = rotate_pt(start - center, -rotation);
+        let start_angle = (local.y * radii.x).atan2(local.x * radii.y);
+        let sweep_angle = if self.determinant() < 0.0 {
+            -arc.sweep_angle
+        } else {
+            arc.sweep_angle
+        };
         Arc {
             center,
             radii,
             x_rotation: rotation,
-            start_angle: arc.start_angle,
-            sweep_angle: arc.sweep_angle,
+            start_angle,
+            sweep_angle,
         }
     }
 }
